@@ -29,7 +29,7 @@ func (rt *runtime) cmplEvaluateNodeStatement(node nodeStatement) Value {
 		value := rt.cmplEvaluateNodeStatementList(node.list)
 		if value.kind == valueResult {
 			if value.evaluateBreak(labels) == resultBreak {
-				return emptyValue
+				return value.carried()
 			}
 		}
 		return value
@@ -119,7 +119,9 @@ func (rt *runtime) cmplEvaluateNodeStatementList(list []nodeStatement) Value {
 		value := rt.cmplEvaluateNodeStatement(node)
 		switch value.kind {
 		case valueResult:
-			return value
+			// A break or continue completion carries the value of the
+			// statements evaluated before it (ES5 12.1: (break, V, target)).
+			return value.carrying(result)
 		case valueEmpty:
 		default:
 			// We have getValue here to (for example) trigger a
@@ -148,10 +150,16 @@ resultBreak:
 			case valueResult:
 				switch value.evaluateBreakContinue(labels) {
 				case resultReturn:
-					return value
+					return value.carrying(result)
 				case resultBreak:
+					if carried := value.carried(); !carried.isEmpty() {
+						result = carried
+					}
 					break resultBreak
 				case resultContinue:
+					if carried := value.carried(); !carried.isEmpty() {
+						result = carried
+					}
 					goto resultContinue
 				}
 			case valueEmpty:
@@ -225,13 +233,22 @@ func (rt *runtime) cmplEvaluateNodeForInStatement(node *nodeForInStatement) Valu
 					case resultReturn:
 						// return, or break/continue aimed at an enclosing statement:
 						// the whole for-in ends here, prototypes included.
-						enumerateValue = value
+						if enumerateValue.isEmpty() {
+							enumerateValue = result
+						}
+						enumerateValue = value.carrying(enumerateValue)
 						obj = nil
 						return false
 					case resultBreak:
+						if carried := value.carried(); !carried.isEmpty() {
+							enumerateValue = carried
+						}
 						obj = nil
 						return false
 					case resultContinue:
+						if carried := value.carried(); !carried.isEmpty() {
+							enumerateValue = carried
+						}
 						return true
 					}
 				case valueEmpty:
@@ -244,6 +261,9 @@ func (rt *runtime) cmplEvaluateNodeForInStatement(node *nodeForInStatement) Valu
 		if obj == nil {
 			if enumerateValue.kind == valueResult {
 				return enumerateValue
+			}
+			if !enumerateValue.isEmpty() {
+				result = enumerateValue
 			}
 			break
 		}
@@ -296,10 +316,16 @@ resultBreak:
 			case valueResult:
 				switch value.evaluateBreakContinue(labels) {
 				case resultReturn:
-					return value
+					return value.carrying(result)
 				case resultBreak:
+					if carried := value.carried(); !carried.isEmpty() {
+						result = carried
+					}
 					break resultBreak
 				case resultContinue:
+					if carried := value.carried(); !carried.isEmpty() {
+						result = carried
+					}
 					goto resultContinue
 				}
 			case valueEmpty:
@@ -354,9 +380,12 @@ func (rt *runtime) cmplEvaluateNodeSwitchStatement(node *nodeSwitchStatement) Va
 				case valueResult:
 					switch value.evaluateBreak(labels) {
 					case resultReturn:
-						return value
+						return value.carrying(result)
 					case resultBreak:
-						return emptyValue
+						if carried := value.carried(); !carried.isEmpty() {
+							return carried
+						}
+						return result
 					}
 				case valueEmpty:
 				default:
@@ -425,10 +454,16 @@ resultBreakContinue:
 			case valueResult:
 				switch value.evaluateBreakContinue(labels) {
 				case resultReturn:
-					return value
+					return value.carrying(result)
 				case resultBreak:
+					if carried := value.carried(); !carried.isEmpty() {
+						result = carried
+					}
 					break resultBreakContinue
 				case resultContinue:
+					if carried := value.carried(); !carried.isEmpty() {
+						result = carried
+					}
 					continue resultBreakContinue
 				}
 			case valueEmpty:
